@@ -18,7 +18,6 @@ RULE = ('one history (<=25 ops: appending writes, read(n)/read(), readline, read
         'members allowed) read with sized/unsized reads and seek(0). non-trivial: a read after a position-changing or querying op '
         'with both rolled and un-rolled variants alive; MultiFileReader: a sized read spanning >=2 members or a read after seek(0). '
         'distinct = distinct canonical JSON of the case.')
-RULE += ' Round 6: ops iter_partial (a for loop left with break / an iterator stepped by hand and dropped, next op continues without a seek), writes repeated 8-40 times, seek_many (12-70 absolute seeks to distinct targets in non-monotonic order, positions compared, then a read).'
 ASSUMPTIONS = [
     'writes are appending (the interpreter seeks to the end first); seek targets lie inside the data',
     'SpooledStringIO: readline(size) is not generated (size is a read hint in the codecs line reader); end-relative seeks only as seek(0, 2)',
